@@ -166,22 +166,26 @@ class SchedWorld:
         loop.call_later(0.01, self._deliver, self.w.echo(tx, frame))
         before = dict(self.ctl.cur)
         rp = self.ctl.answer(frame, tx.gid)
-        if f[5] == "0006" and rp:
-            self.crlog.append((self.tick(), dict(self.ctl.cur)))
+        snap = dict(self.ctl.cur) if (f[5] == "0006" and rp) else None  # (a counter read counts from the moment its reply ARRIVES)
         for z, v in self.ctl.cur.items():
             if v != before[z]:
                 self.verlog.append((self.tick(), z, v))
         if rp is None or fate == "lose_reply":
             return
         if fate == "late_reply":
-            loop.call_later(0.6, self._deliver, rp)
+            loop.call_later(0.6, self._deliver_rp, rp, snap)
             return
         if fate == "very_late_reply":  # a straggler: it arrives when the transfer (and perhaps the next one) is long over
-            loop.call_later(3.0, self._deliver, rp)
+            loop.call_later(3.0, self._deliver_rp, rp, snap)
             return
-        loop.call_later(0.03, self._deliver, rp)
+        loop.call_later(0.03, self._deliver_rp, rp, snap)
         if fate == "dup_reply":
             loop.call_later(0.034, self._deliver, rp)
+
+    def _deliver_rp(self, rp: str, snap) -> None:
+        if snap is not None:
+            self.crlog.append((self.tick(), snap))
+        self._deliver(rp)
 
     # ------------------------------------------------------------------------------------------ callers
     def start_caller(self, i: int) -> None:
@@ -514,6 +518,12 @@ def scenarios(quick: bool) -> list[tuple[dict, int]]:
             sc.append(({"callers": [a, dict(b, start=k)], "sizes": sizes, "dev": full}, 1 if quick or k > 1 else 2))
     sc.append(({"callers": [get("01"), get("02"), get("HW")], "sizes": sizes, "dev": full}, 1))
     sc.append(({"callers": [get("01", force_io=True), dict(put("02", size=2), start=1), dict(get("HW"), start=2)], "sizes": sizes, "dev": full}, 1))
+    # 5b. the library learns of a change through ANOTHER zone's transfer (its counter read), then is asked - without forcing I/O - for the
+    #     zone that changed: the cached schedule is known to be superseded
+    for k in (1, 2, 3):
+        for age in (0, 200):
+            sc.append(({"callers": [get("02", force_io=True), dict(get("01"), start=k)], "sizes": sizes, "warm": ("01", "02"), "pre_bump": ("01",), "age": age, "dev": ("fate", "bump")}, 1))
+    sc.append(({"callers": [put("02", size=2), dict(get("01"), start=3)], "sizes": sizes, "warm": ("01", "02"), "pre_bump": ("01",), "dev": ("fate",)}, 1))
     # 6. a zone without a schedule
     sc.append(({"callers": [get("01")], "sizes": {"01": 0, "02": 1}, "dev": ("fate", "overhear", "cancel")}, 2))
     return sc
